@@ -18,21 +18,21 @@ import (
 type c09 struct{}
 
 type c09Case struct {
-	U       rig.UniverseSpec `json:"universe"`
-	Op      gen.Op           `json:"op"`
-	Canary  gen.Op           `json:"canary"`
-	CallIdx int              `json:"call_index"` // index into the fault-free call list
-	Kind    string           `json:"fault_kind"`
-	Pos     int              `json:"pos"` // 0 first, -2 last, -1 all
-	Batch   bool             `json:"batch_with_canary"`
-	CanaryFirst bool         `json:"canary_first"`
-	Second  int              `json:"second_fault_call"` // -1: none (short sequences: a second fault at another call)
-	Kind2   string           `json:"second_fault_kind,omitempty"`
+	U           rig.UniverseSpec `json:"universe"`
+	Op          gen.Op           `json:"op"`
+	Canary      gen.Op           `json:"canary"`
+	CallIdx     int              `json:"call_index"` // index into the fault-free call list
+	Kind        string           `json:"fault_kind"`
+	Pos         int              `json:"pos"` // 0 first, -2 last, -1 all
+	Batch       bool             `json:"batch_with_canary"`
+	CanaryFirst bool             `json:"canary_first"`
+	Second      int              `json:"second_fault_call"` // -1: none (short sequences: a second fault at another call)
+	Kind2       string           `json:"second_fault_kind,omitempty"`
 }
 
-func (c09) ID() string            { return "C09" }
-func (c09) Level() string         { return "fault_enumeration" }
-func (c09) RaceIsViolation() bool { return false }
+func (c09) ID() string                 { return "C09" }
+func (c09) Level() string              { return "fault_enumeration" }
+func (c09) RaceIsViolation() bool      { return false }
 func (c09) Exhaustive(c *run.Ctx) bool { return true }
 func (c09) Rule() string {
 	return "for each sampled (universe, core operation): the fault-free run's downstream call list is recorded, then EVERY (call index <= 6) x EVERY fault kind (" + strings.Join(fake.FaultKinds, ", ") + ") x element position (first, last, all) is injected one at a time; plus two-fault sequences at different calls; plus a batch [operation, canary] with the fault on the operation's root call; " +
@@ -54,9 +54,11 @@ func (p c09) opsPerU(c *run.Ctx) (int, int) {
 	return 5, 4
 }
 
-func (p c09) perOp() int { return c09Calls*len(fake.FaultKinds)*len(c09Pos) + 40 + len(fake.FaultKinds) }
+func (p c09) perOp() int {
+	return c09Calls*len(fake.FaultKinds)*len(c09Pos) + 40 + len(fake.FaultKinds)
+}
 
-func (p c09) NumCases(c *run.Ctx) int { u, o := p.opsPerU(c); return u * o * p.perOp() }
+func (p c09) NumCases(c *run.Ctx) int  { u, o := p.opsPerU(c); return u * o * p.perOp() }
 func (p c09) BatchSize(c *run.Ctx) int { return 150 }
 
 func (p c09) Gen(c *run.Ctx, idx int) (json.RawMessage, error) {
